@@ -1359,8 +1359,16 @@ def run_impl(case):
         if hext_text[0] is None:
             obs.append("ERR-hextdoc")
         else:
-            rows = [ln + "\n" for ln in hext_text[0].split("\n") if ln]
+            # each line in the spelling CPython's json.dumps gives its six columns: a JSON-equivalent respelling by
+            # rdflib (ensure_ascii=False, the orjson branch) is not a difference; how many lines are already spelled
+            # exactly so is counted (all of them, with the code as it is)
+            raw = [ln + "\n" for ln in hext_text[0].split("\n") if ln]
+            try:
+                rows = [json.dumps(json.loads(ln)) + "\n" for ln in raw]
+            except ValueError:
+                rows = raw
             stats["hext_text_rows"] = len(rows)
+            stats["hext_text_rows_spelled_as_json_dumps"] = sum(1 for a, b in zip(raw, rows) if a == b)
             obs.append(" ".join(sorted(_cps(r) for r in rows)))
     for h in case.get("htext") or []:
         stats["hext_hand_rows"] = stats.get("hext_hand_rows", 0) + 1
